@@ -212,6 +212,15 @@ func (x *Exec) invoke(st *State, site ssa.Instruction, c *ssa.CallCommon, fnv Va
 					}
 				}
 			}
+			// a value of a named function type may have a contract: `iface T.call` in T's package (this = the value)
+			if n, ok := types.Unalias(c.Value.Type()).(*types.Named); ok {
+				if _, isSig := n.Underlying().(*types.Signature); isSig {
+					if spec := x.P.fieldFuncSpec(n, "call"); spec != nil {
+						x.callSpec(st, site, kind, spec, nil, sig, append([]Val{f}, args...), n)
+						return
+					}
+				}
+			}
 			x.unknownCall(st, site, kind, sig, "dynamic function value in "+fnShort(st.fr.fn))
 			return
 		}
@@ -385,6 +394,9 @@ func (x *Exec) callSpec(st *State, site ssa.Instruction, kind frameKind, spec *F
 	p := &pendingSpecCall{site: site, kind: kind, spec: spec, fn: fn, sig: sig, names: names, tctx: tctx, old: st.H.copy(), label: label}
 	// callback clause: `ensures`/`requires` may mention `called`; the closure argument named in spec.Callback is run inline first
 	if cbName := specCallback(spec); cbName != "" {
+		// `callback:fn:nonnil`: the pointers the callee hands to the callback are never nil (part of the callee's trusted contract)
+		cbNonNil := strings.HasSuffix(cbName, ":nonnil")
+		cbName = strings.TrimSuffix(cbName, ":nonnil")
 		if cl, ok := names[cbName].(CL); ok && cl.Fn.Blocks != nil {
 			var cbArgs []Val
 			for _, pp := range cl.Fn.Params {
@@ -398,6 +410,9 @@ func (x *Exec) callSpec(st *State, site ssa.Instruction, kind frameKind, spec *F
 				}
 				if found == nil {
 					found = x.freshVal(st, pp.Type(), "cbarg")
+					if tv, ok := found.(TV); ok && cbNonNil && isPointer(pp.Type()) {
+						st.assume(not(eq(tv.T, "0")))
+					}
 				}
 				cbArgs = append(cbArgs, found)
 			}
